@@ -295,8 +295,27 @@ def witness_stream(ctx):
                                                  "theorem": thm, "broken": "property:C15-lossless"}, finding_id=f2)
 
 
+def uninitialised_stream(ctx):
+    """torch.distributed not initialised: send_tensors returns [result]"""
+    from torcheval.metrics import synclib
+    s = ctx.stream("uninitialised process group: send_tensors(t) == [t]")
+    ok = True
+    for _ in range(ctx.n(20, 100)):
+        spec = su.gen_tensor(ctx.rng, ctx.rng.choice(DT), ctx.rng.choice([0, 1, 2, 3, 4]))
+        t = su.mk_tensor(spec)
+        res = synclib.send_tensors(t)
+        s.case(repr(su.jsonable(spec)), True)
+        if not (isinstance(res, list) and len(res) == 1 and su.tval(res[0]) == su.tval(t)):
+            ok = False
+            ctx.violation("failing-input", "synclib.send_tensors", {"check": "uninitialised", "tensor": su.jsonable(spec),
+                                                                    "broken": "property:C15-uninitialised-identity"})
+            break
+    ctx.oblige("property:C15-uninitialised-identity", ok)
+
+
 def run(ctx):
     su.quiet()
+    uninitialised_stream(ctx)
     tie_stream(ctx, "send_tensors: trace+result tie (checking transport)", gen_send, ctx.n(600, 4000), "sync_send")
     tie_stream(ctx, "sync_states: trace+result tie (checking transport)", gen_states, ctx.n(600, 4000), "sync_states")
     witness_stream(ctx)
